@@ -11,6 +11,8 @@ open Ovni.Rt Ovni.Rt.Conc Drivers.Rt
   race <init|fini> <N> gen            all interleavings of N racing calls, step lists from the generated table
   race <init|fini> <N> ops k,a,b ...  the same for a given list of `rproc.st` operations (raw encoding)
       -> "once states=<n> terminals=<m>"  |  "violation returned=<r> sched=<i,i,...>"
+  publish gen                         one thread in ovni_proc_init, one calling ovni_thread_init concurrently:
+      -> "safe states=<n>"  |  "violation sched=<i,i,...>" (READY visible while the initialiser has steps left)
   mt <seed> | <script 0> | <script 1> | ...   (scripts as for drv_rt, ops separated by ';')
       -> the drv_rt result line of every thread, joined by " | ", under a pseudo-random schedule
 -/
@@ -77,6 +79,33 @@ def race (ws : List String) : String :=
     | _, _ => "bad-op"
   | _ => "bad-op"
 
+/-- Every state reachable by one initialiser (thread 0) and one thread calling
+    `ovni_thread_init` (thread 1): READY must imply that thread 0 has finished. -/
+def explorePub (fp : Foot) : Nat → Cfg Pat → List Nat → Search → Search
+  | 0, _, _, s => s
+  | fuel + 1, c, path, s =>
+    if s.bad.isSome then s else
+    let k := key 2 c
+    if s.seen.contains k then s else
+    let s := { s with seen := s.seen.insert k }
+    if c.g.st == .ready && !(returned (c.th 0)) then { s with bad := some (0, path.reverse) } else
+    let live := (List.range 2).filter fun i => !finished (c.th i)
+    live.foldl (fun s i => explorePub fp fuel (tick fp 100 c i) (i :: path) s) s
+
+def publish (ws : List String) : String :=
+  match ws with
+  | ["gen"] =>
+    let c0 : Cfg Pat :=
+      { g := { st := .uninit },
+        th := fun i => if i = 0 then { calls := [.procInit { app := 1, pid := 10, loom := 1 }] }
+                       else if i = 1 then { t := { tid := 101, s := { now := 1000 } }, calls := [.threadInit 101] }
+                       else idleThr }
+    let s := explorePub Foot.generated 10000 c0 [] {}
+    match s.bad with
+    | none => s!"safe states={s.seen.size}"
+    | some (_, path) => s!"violation sched={",".intercalate (path.map toString)}"
+  | _ => "bad-op"
+
 def toCall (tid : Nat) : Op Pat → Call Pat
   | .init => .threadInit tid
   | .free => .threadFree
@@ -126,6 +155,7 @@ def step (ws : List String) : String :=
   match ws with
   | "race" :: r => race r
   | "mt" :: r => mt r
+  | "publish" :: r => publish r
   | _ => "bad-op"
 
 end Drivers.Conc
